@@ -229,7 +229,11 @@ def execute(case):
         out.raised("consistent_sampling", e)
         out.violate("C07.a", f"raised-{type(e).__name__}", f"consistent_sampling raised {e!r} for sizes {sizes}")
         return out
-    idx = [int(i) for i in idx]
+    try:
+        idx = [int(i) for i in idx]
+    except Exception as e:
+        out.violate("C07.a", "malformed-result", f"consistent_sampling returned {type(idx).__name__}, not a list of card indices ({e!r})")
+        return out
     out.ev("selected", idx)
     out.shape(f"nsel={min(len(idx), 3)} skipped={int(bool(out.probes.get(PROBES[0])))}")
     if idx != ref_idx:
